@@ -1,5 +1,5 @@
 import json,glob,sys
-for f in sorted(glob.glob('/verif/seeded/*-r[234]-*/result.json')):
+for f in sorted(glob.glob('/verif/seeded/*-r[2345]-*/result.json')):
     r=json.load(open(f)); n=f.split('/')[-2]
     ch=r.get('checks_with_patch',{})
     s=' '.join('%s:(%s,v%s,c%s,%s)'%(p,c['exit'],c['violations'],c['with_concrete_replay'],c['signatures'][:3]) for p,c in ch.items())
